@@ -12,7 +12,7 @@ use swiftness_stark::config::StarkConfig;
 /// For the "hi.*" deviations the model unit Hi stands for a huge power of two (2^64, 2^128, 2^192): the signed model
 /// value is split as q * Hi + r with |r| <= Hi/2 and lifted to q * unit + r, which keeps every sum the model forms exact.
 pub fn lift(v: &Value, p: u64) -> Felt {
-    let x = v.as_u64().expect("model number");
+    let x = v.as_u64().unwrap_or_else(|| panic!("model number expected, got {v}")) % p;
     let signed = |m: u64, neg: bool| if neg { Felt::ZERO - Felt::from(m) } else { Felt::from(m) };
     let (mag, neg) = if x > p / 2 { (p - x, true) } else { (x, false) };
     match HI.with(|h| h.get()) {
